@@ -15,7 +15,7 @@ func init() { register("C10", c10) }
 func c10(c *Ctx) {
 	r := c.R
 	r.Explanation = "Partial: the structure that implements the duplicate marker. (U1) in handlePostMessage every path to the commit call or to the leader hand-off takes the false edge of LastPostMessage(session) == req.ClientMessageId, the short-cut edge acknowledges without proposing, and the same request field flows into the proposal; (U2) the state machine records the marker before processing a client line and also for entries skipped as message of death; (U3) Session.lastClientMessageId has exactly the expected writers/readers and is written from the entry's ClientMessageId; (U4) the marker and the message field survive snapshot and every log encoding. Whether a retry actually arrives after the first copy was applied on the handling replica is a schedule question and not decided."
-	r.Rules = []string{"C10.U1 handler short-cut", "C10.U2 record before processing and for tombstones", "C10.U3 single writer, right value", "C10.U4 marker is replicated"}
+	r.Rules = []string{"C10.U1 handler short-cut", "C10.U2 record before processing and for tombstones", "C10.U3 single writer, right value", "C10.U4 marker is replicated", "C10.U5 one entry point for client lines"}
 
 	// U1b: the marker accessor returns the stored marker for every session it finds (no further condition)
 	if lpm := c.MustFunc("ircserver.(*IRCServer).LastPostMessage"); lpm != nil {
@@ -114,6 +114,23 @@ func c10(c *Ctx) {
 				"a path reaches "+astx.Str(call.Fun)+" without the duplicate test having failed: a retried POST is proposed (or forwarded) again")
 		}
 		r.Floor("C10.U1", 3)
+		// U1c: the handler answers with success without having proposed, forwarded or reported an error only where the
+		// REPLICATED marker says the message was applied: such a return is implied by the duplicate test alone
+		{
+			effect := func(id int) bool {
+				x := g.V[id]
+				return containsCall(info, x, isAMW) || containsCall(info, x, isProxy) || containsCall(info, x, isHTTPError)
+			}
+			silent := g.Reach(g.Entry, effect, nil)
+			for _, rv := range g.Returns() {
+				if !silent[rv.ID] {
+					continue
+				}
+				okDup := implied(c.clausesAt(fi, g, rv.ID), func(l lit) bool { return l.Pos && isDupTest(info, l.E) })
+				r.Check(okDup, "C10.U1", fi.Name(), "success without proposing only for a duplicate the replicated marker shows", c.P.Pos(rv.Node.Pos()), "the return is implied by LastPostMessage(session) == req.ClientMessageId",
+					"the handler acknowledges a POST without proposing it on a path that is not justified by the replicated duplicate marker alone (e.g. a node-local memory of recent ids): a message whose first attempt failed is acknowledged on retry and never committed — an acknowledged message is lost")
+			}
+		}
 		if dupCond != nil {
 			be := ast.Unparen(dupCond).(*ast.BinaryExpr)
 			var lpm *ast.CallExpr
@@ -301,6 +318,57 @@ func c10(c *Ctx) {
 		}
 		r.Check(okRet, "C10.U3", lpm.Name(), "returns the stored marker", c.P.Pos(lpm.Node().Pos()), "a return mentions Session.lastClientMessageId",
 			"LastPostMessage does not return the stored marker")
+	}
+	// U3b: a session value is never overwritten wholesale (`*s = *other`): that replaces the marker just recorded for the
+	// entry being applied by some other session's
+	{
+		sessT := c.P.Named("ircserver", "Session")
+		for _, fi := range c.P.FuncsIn("ircserver") {
+			if fi.Body() == nil {
+				continue
+			}
+			info := fi.Info()
+			ast.Inspect(fi.Body(), func(n ast.Node) bool {
+				as, ok := n.(*ast.AssignStmt)
+				if !ok {
+					return true
+				}
+				for _, l := range as.Lhs {
+					st, ok := ast.Unparen(l).(*ast.StarExpr)
+					if !ok {
+						continue
+					}
+					if t := info.TypeOf(st); t != nil && sessT != nil && astx.NamedOf(t) == sessT {
+						r.Fail("C10.U3", fi.Name(), "a session is never overwritten as a whole", c.P.Pos(as.Pos()),
+							"a whole Session value is assigned through a pointer: every field, including the duplicate marker that was recorded for the entry being applied, is replaced by the other value's — the retry of that entry is then not recognised and applied again")
+					}
+				}
+				return true
+			})
+		}
+	}
+	// U5: client lines enter the log through handlePostMessage only (where the duplicate test and the request's
+	// ClientMessageId are): no other function of the API proposes an IRCFromClient entry
+	{
+		n := 0
+		for _, fi := range c.P.FuncsIn("api") {
+			if fi.Body() == nil {
+				continue
+			}
+			info := fi.Info()
+			for _, cl := range compositeLitsOf(info, fi.Body(), pathRobust, "Message") {
+				tv := litField(cl, "Type")
+				if tv == nil || !refersTo(info, tv, pathRobust, "IRCFromClient") {
+					continue
+				}
+				n++
+				r.Check(c.attribName(fi) == "api.(*HTTP).handlePostMessage", "C10.U5", fi.Name(), "client lines are proposed by handlePostMessage only", c.P.Pos(cl.Pos()), "the one place with the duplicate test",
+					"another handler proposes a client line for a session (with its own or no ClientMessageId): applying it overwrites that session's duplicate marker on every replica, so the retry of the user's own last message is no longer recognised and is applied twice")
+			}
+		}
+		if n < 1 {
+			r.Break("C10.U5: no proposal of an IRCFromClient entry found in package api")
+		}
 	}
 	r.Floor("C10.U3", 6)
 
